@@ -146,6 +146,11 @@ class Registry:
     def lemma(self, name, **kw):
         self.lemmas[name] = kw
 
+    def after_load(self, fn):
+        """run fn(registry) once ALL sidecar files are loaded (sidecars load in alphabetical order; a file that refines
+        a contract declared by a later file registers the refinement here)"""
+        self.__dict__.setdefault("_after_load", []).append(fn)
+
     def lookup(self, clsname, fname, module_rel=None):
         keys = []
         if clsname:
@@ -173,4 +178,6 @@ def load_sidecars(paths) -> Registry:
         mod = importlib.util.module_from_spec(spec)
         mod.R = reg
         spec.loader.exec_module(mod)
+    for fn in reg.__dict__.get("_after_load", []):
+        fn(reg)
     return reg
